@@ -106,7 +106,17 @@ def run(chk):
     chk.assumptions += ['convergence TIME under arbitrary fair asynchronous schedules is not proved (explored by the schedules only)',
                         'agreement is judged at quiescent fixpoints past SYNCHRONIZATION (a cluster whose synchronisation condition cannot be met '
                         'has no Master by design; see C08)', 'discovery mode is not modelled']
+    # closed loop with processes, commanders and conflicts (harness/c16free.py): at the end of the quiet phase the live, mutually RUNNING
+    # instances must name one Master, one of them
+    import c16free
+    c16free.liveness_stage(chk, 'C01:free:', [{}, {'ending': True}], 100, 4000)
 
 
 def replay(chk, path):
-    replay_schedule(chk, path, ['C01-'])
+    import json
+    c = json.load(open(path)); r = c.get('replay', c)
+    if r.get('stage') == 'free':
+        import c16free
+        c16free.liveness_replay(chk, r, 'C01:free:')
+    else:
+        replay_schedule(chk, path, ['C01-'])
